@@ -2,7 +2,7 @@ SPECIFICATION MCSpec
 CONSTANTS FailFastOn = "anyerr"
  FlattenPrefer = "real"
  SkipCancelled = TRUE
- CancelDrains = FALSE
+ CancelDrains = "no"
  ExtraWorkers = 0
  WorkersMC = {1, 2}
  BufsMC = {0, 1}
